@@ -185,6 +185,18 @@ add("C17",
     "missing/non-int nvdim, missing vdims axis and non-DataArray input must be rejected.",
     "field unit not restored on import (not claimed); attribute-free import only with >= 2 cells per direction.")
 
+add("C18",
+    "model-based histories of rotate()/clear_rotation() on a FieldRotator with an independently built accumulated "
+    "rotation matrix; closed-form answers for uniform and linear fields; differential check against one rotator given "
+    "the product and against Field.rotate90",
+    "Histories of 1-4 rotations in five parametrisations (quaternion, matrix, rotation vector, Euler angles intrinsic/"
+    "extrinsic, vector alignment) with default or explicit n: after every step the region must be the bounding box of "
+    "the rotated region about the same centre, cells >= 1 cell inside must carry Q v (uniform, with the component "
+    "permutation) or the linear scalar's value, cells outside carry exactly 0, the result must equal a fresh rotator "
+    "given the accumulated matrix, clearing restores the original; quarter turns on cubic cells equal rotate90; "
+    "unsupported fields are refused.",
+    "rotation matrices built with Rodrigues / elementary rotations (no scipy); the half-cell boundary band is not asserted.")
+
 PENDING = {}
 
 
